@@ -965,11 +965,11 @@ func genIntStr(g *genCtx) string {
 		mag = genBits(t, 64, false)
 	}
 	digits := strconv.FormatUint(mag, fb)
-	if rapid.IntRange(0, 7).Draw(t, "beyond") == 0 {
+	if rapid.IntRange(0, 3).Draw(t, "beyond") == 0 {
 		// just beyond the unsigned range of the bit size (2^bits + k): for 64 bits the
 		// value does not fit in uint64, the accumulator wraps in the last digit
 		over := new(big.Int).Lsh(big.NewInt(1), uint(bits))
-		over.Add(over, big.NewInt(int64(rapid.IntRange(0, 2*fb).Draw(t, "over"))))
+		over.Add(over, big.NewInt(int64(rapid.IntRange(0, fb).Draw(t, "over"))))
 		digits = over.Text(fb)
 	}
 	switch rapid.IntRange(0, 13).Draw(t, "mut") {
